@@ -81,9 +81,10 @@ class LUTState:
         return best_addr
 
 
-def get_lut_index(arch, lut_tensor):
-    # Returns the index in SHRAM where the given LUT is stored, a value between 0 and 8
-    slot = (lut_tensor.address - arch.shram_lut_address) // lut_tensor.storage_size()
+def get_lut_index(arch, lut_tensor, slot_size=256):
+    # Returns the index in SHRAM where the given LUT is stored, a value between 0 and 8.
+    # The index counts 256 byte slots, also for larger LUTs (as when a LUT is placed, see below)
+    slot = (lut_tensor.address - arch.shram_lut_address) // slot_size
     assert 0 <= slot < 8
     return slot
 
